@@ -911,7 +911,13 @@ func (p *Prog) Method(q string) *types.Func {
 		ref := refMethodNames(q[:i])
 		if j := similarName(q[i+1:], names); j >= 0 {
 			lw, lc := strings.ToLower(q[i+1:]), strings.ToLower(names[j])
-			if !ref[names[j]] || (len(lw) != len(lc) && (strings.Contains(lw, lc) || strings.Contains(lc, lw))) {
+			// (a wanted name that never was a method of the reference tree — a rule's alias for "Enqueue or its
+			// unexported twin" — may resolve to any method)
+			// an unexported method merged into its exported twin (enqueue into Enqueue) resolves to the twin, unless
+			// the method is one that is found by its role when renamed (close, whose twin Close only calls it)
+			_, hasRole := roleFnNames["(*"+q[:i]+")."+q[i+1:]]
+			caseTwin := lw == lc && !hasRole
+			if !ref[q[i+1:]] || !ref[names[j]] || caseTwin || (len(lw) != len(lc) && (strings.Contains(lw, lc) || strings.Contains(lc, lw))) {
 				p.fuzzy = append(p.fuzzy, q+" -> "+names[j])
 				return ms[j]
 			}
@@ -1118,3 +1124,6 @@ func init() {
 		return hit
 	}
 }
+
+// roleFnNames: the anchors that have a role-based resolver (kept apart from roleFns to avoid an initialisation cycle).
+var roleFnNames = map[string]bool{"(*nats.Client).close": true, "(*server.wsConn).outputWorker": true}
